@@ -534,7 +534,7 @@ def r_assert_helpers(model, rep):
     val = ("call", ("global", "getattr"), (S(cx), ("param", cx.params[1])), ())
     r = [ev for ev in cx.events if ev.kind == "raise"]
     ok = len(r) == 1 and r[0].value[0] == "call" and r[0].value[1] == ("global", "ValueError") \
-        and list(r[0].guards) == [(("unary", "not", val), True)] and not [ev for ev in cx.events if ev.kind == "return" and ev.value != ("const", None)]
+        and [T.strip_not(g[0], g[1]) for g in facts.own_guards(cx, r[0], kinds=("raise",)) if g[0][0] != "exc"] == [(val, False)] and not [ev for ev in cx.events if ev.kind == "return" and ev.value != ("const", None)]
     rep.ob("R-ASSERT-HELPERS", "MetadataBase._assert_not_blank", ok, site=cx.site(f.node),
            msg="" if ok else "_assert_not_blank must raise ValueError exactly when the field value is falsy (empty string, empty "
                              "container, 0, None)")
@@ -544,7 +544,7 @@ def r_assert_helpers(model, rep):
     val = ("call", ("global", "getattr"), (S(cx), ("param", cx.params[1])), ())
     r = [ev for ev in cx.events if ev.kind == "raise"]
     ok = len(r) == 1 and r[0].value[0] == "call" and r[0].value[1] == ("global", "ValueError") \
-        and list(r[0].guards) == [(("cmp", ("not in",), (val, ("param", cx.params[2]))), True)]
+        and [(g[0], g[1]) for g in facts.own_guards(cx, r[0], kinds=("raise",)) if g[0][0] != "exc"] == [(("cmp", ("in",), (val, ("param", cx.params[2]))), False)]
     rep.ob("R-ASSERT-HELPERS", "MetadataBase._assert_value", ok, site=cx.site(f.node),
            msg="" if ok else "_assert_value must raise ValueError exactly when the field value is not in the table")
     # _assert_type: return iff isinstance(value, one of expected types); else TypeError
@@ -1103,15 +1103,10 @@ def r_skip_implies_empty(model, rep):
         for ev in early:
             n += 1
             empty = set()
-            for g in ev.guards:
-                t, pol = T.strip_not(g[0], g[1])
-                parts = [(t, pol)]
-                if g[1] and g[0][0] == "boolop" and g[0][1] == "and":
-                    parts = [T.strip_not(x, True) for x in g[0][2]]
-                for t2, p2 in parts:
-                    a = cx.self_attr(t2)
-                    if a is not None and not p2:
-                        empty.add(a)
+            for t2, p2 in facts.flat_atoms(ev.guards):
+                a = cx.self_attr(t2)
+                if a is not None and not p2:
+                    empty.add(a)
             missing = [f_ for f_ in fields if f_ not in empty]
             rep.ob("R-SKIP-IMPLIES-EMPTY", "%s.serialize" % cls.qname, not missing, site=cx.site(ev.lineno),
                    msg="" if not missing else "the writer returns before validate() under a condition that does not imply that field(s) %s "
